@@ -41,7 +41,7 @@ RULE = ("case = generator + argument values + RNG seed; non-trivial = colouring 
 ASSUMPTIONS = ["random graphs that must be connected are requested with p_edge >= 0.3 (the generator retries until "
                "connected; a tiny p_edge makes that loop arbitrarily long, which is a cost, not a property, issue)"]
 BUDGET = {"quick": {"workers": 4, "examples": 350, "seconds": 40},
-          "thorough": {"workers": 16, "examples": 3000, "seconds": 600}}
+          "thorough": {"workers": 16, "examples": 6000, "seconds": 600}}
 
 COLORS = ["R", "G", "B", "O", "F", "Y", "L", "C"]
 
